@@ -300,6 +300,40 @@ def r7_argument_errors_at_the_call(ctx, rule="C11.R7"):
     ctx.require(rule, 2)
 
 
+TRACE_MOVES = ("append", "push", "pop", "new", "with_capacity", "len", "is_empty", "extend", "extend_from_slice",
+               "clone", "iter", "as_slice", "deref", "into_iter", "from_iter", "collect")
+
+
+def r9_trace_is_moved_unchanged(ctx, rule="C11.R9"):
+    """`lists the rows of the active call sites, innermost first`: when an error ends the program the
+    VM's call-site list is moved into the error value.  The module that does this (error_envelope)
+    may only move and count positions: any operation that drops, merges or reorders entries of a
+    Vec<Position> there (dedup, sort, retain, remove, truncate, reverse, drain ...) changes the list
+    the user sees - recursion legitimately lists the same call site several times."""
+    prog = ctx.prog
+    n = 0
+    fns = [f for f in prog.fns.values() if f.crate == "rusty_basic" and f.file.endswith("error_envelope.rs")]
+    if not fns:
+        raise CheckError("%s: no function of error_envelope.rs found" % rule)
+    for f in sorted(fns, key=lambda f: f.id):
+        for b, t in f.body.calls():
+            cp = t.get("cpath") or ""
+            st = t.get("self_ty") or ""
+            if not (cp.startswith("std::vec::Vec") or "slice::<impl [T]>" in cp):
+                continue
+            if "Position" not in st and "Position" not in json.dumps((t["f"].get("k") or {}).get("gargs") or []):
+                continue
+            n += 1
+            nm = cp.split("::")[-1]
+            name = (prog.enclosing_fn(f) or f).path.split("::", 1)[1]
+            k = sum(1 for x in ctx.obs if x.key.startswith("%s:%s:%s" % (rule, name, nm)))
+            ctx.decide(nm in TRACE_MOVES, rule, "%s:%s:%s%s" % (rule, name, nm, "#%d" % k if k else ""),
+                       "%s:%s" % (f.file, t.get("ln")), "%s moves / counts positions" % nm,
+                       "%s applies Vec::%s to the list of call sites: entries are dropped, merged or reordered before "
+                       "the error is reported (a directly recursive SUB loses all but one of its call sites)" % (name, nm))
+    ctx.require(rule, 3)
+
+
 def run(ctx):
     common.install(ctx)
     r1_with_pos(ctx)
@@ -310,3 +344,4 @@ def run(ctx):
     r7_argument_errors_at_the_call(ctx)
     from . import c09
     c09.r13_lookahead_guard_is_tight(ctx, "C11.R8")
+    r9_trace_is_moved_unchanged(ctx)
